@@ -110,6 +110,28 @@ class adversarial_pool:
             def imap_unordered(self, func, iterable, chunksize=1):
                 res = self._p.map(func, list(iterable), chunksize)
                 return iter(list(reversed(res)))
+            # ordered APIs: the tasks are SUBMITTED in reverse order (so side effects such as writes into a shared dict happen in the
+            # opposite of the seed order) and the results are put back into submission order, as the contract demands
+            def starmap(self, func, iterable, chunksize=None):
+                items = list(iterable)
+                return list(reversed(self._p.starmap(func, list(reversed(items)), 1)))
+            def map(self, func, iterable, chunksize=None):
+                items = list(iterable)
+                return list(reversed(self._p.map(func, list(reversed(items)), 1)))
+            def starmap_async(self, func, iterable, chunksize=None, callback=None, error_callback=None):
+                items = list(iterable)
+                inner = self._p.starmap_async(func, list(reversed(items)), 1, None, error_callback)
+                class _R:
+                    def get(self_, timeout=None):
+                        r = list(reversed(inner.get(timeout)))
+                        return r
+                    def wait(self_, timeout=None):
+                        return inner.wait(timeout)
+                    def ready(self_):
+                        return inner.ready()
+                    def successful(self_):
+                        return inner.successful()
+                return _R()
             def __getattr__(self, name):
                 return getattr(self._p, name)
         mp.Pool = Pool
